@@ -85,7 +85,6 @@ FieldTypes == [a |-> "keyword", b |-> "keyword", c |-> "keyword", p |-> "path", 
 
 IsLeaf(x) == x.op \in {"lit", "in", "words", "phrase", "kw", "inp"}
 
-
 Range(s) == {s[i] : i \in DOMAIN s}
 
 \* the documented reading; an atom is <<field, word>>, an assignment a set of atoms
